@@ -108,6 +108,55 @@ func genC05(seed uint64, tier string, idx int) *Plan {
 		if g.r.chance(35) {
 			style = "frame" // each packet in its own read: bodies alias the reused read buffer
 		}
+		if g.r.chance(8) {
+			// A transfer abandoned for good (one packet never arrives), more than 60 s of silence, then life goes on:
+			// an ordinary message, a re-sent packet of the abandoned transfer ("ignored without disturbing ... the
+			// server") and a fresh transfer that must complete. What the server does with the abandoned transfer is
+			// C14's business; here it may only never be delivered.
+			total := 3 + g.r.intn(5)
+			fr, tr := g.transferFrames(ci, 0x0805, total, 20, g.r.chance(50))
+			miss := fr[1+g.r.intn(len(fr)-1)].No
+			var kept []SentFrame
+			for _, f := range fr {
+				if f.No != miss {
+					kept = append(kept, f)
+				}
+			}
+			p.Expect.Xfers = append(p.Expect.Xfers, tr)
+			xi := len(p.Expect.Xfers)
+			for k := range kept {
+				kept[k].Xfer = xi
+			}
+			gapAfter := len(frames) + len(kept)
+			frames = append(frames, kept...)
+			pid := g.randID()
+			frames = append(frames, g.mkFrame(ci, pid, g.randSerial(), g.wellFormedBody(pid, v19, p.Conns[ci].Phone)))
+			late := kept[len(kept)-1]
+			if late.No == 1 && len(kept) > 1 {
+				late = kept[len(kept)-2]
+			}
+			if late.No != 1 {
+				frames = append(frames, late)
+			}
+			total2 := 1 + g.r.intn(4)
+			fr2, tr2 := g.transferFrames(ci, 0x0104, total2, 20, true)
+			p.Expect.Xfers = append(p.Expect.Xfers, tr2)
+			for k := range fr2 {
+				fr2[k].Xfer = len(p.Expect.Xfers)
+			}
+			frames = append(frames, fr2...)
+			a := g.connActor(ci, frames, "frame", 20)
+			var ops []Op
+			for _, op := range a.Ops {
+				ops = append(ops, op)
+				if op.K == "send" && op.Frame == gapAfter {
+					ops = append(ops, Op{K: "sleep", D: int64(time.Duration(61000+g.r.intn(30000)) * time.Millisecond)})
+				}
+			}
+			a.Ops = ops
+			g.p.Faults = append(g.p.Faults, "clock.abandoned_transfer_expires", "pkt.loss")
+			continue
+		}
 		a := g.connActor(ci, frames, style, 20)
 		if g.r.chance(20) {
 			// idle gaps between reads, in total well below the 60 s after which a transfer may be discarded
